@@ -106,7 +106,7 @@ CHECKS = {
  ),
  "C19": dict(
   category="fault_enumeration",
-  text="Every truncation offset of small valid documents, stacked grammar-aware corruptions and byte mutations are fed to the CSV reader (5 row shapes, with/without header, via reader and via file), the JSON stream reader and the Tiingo repository (13 status codes x body kinds through a fake RoundTripper, no network). HTTP bodies that start like a document and never end must not be read to their end (progress monitor in the body). Row types with fields the codec does not support (a named type built on time.Time, nested structs, pointers, slices) are read as well; the Tiingo repository is also obtained through asset.NewRepository and driven through Get / Assets / Append. Decided per document: no panic, the stream closes (runtime deadlock detector), delivered rows equal the records of the well-formed prefix computed by an independent reference, no goroutine left behind, response bodies closed, non-200 / missing files surface as errors.",
+  text="Every truncation offset of small valid documents, stacked grammar-aware corruptions and byte mutations are fed to the CSV reader (5 row shapes, with/without header, via reader and via file), the JSON stream reader and the Tiingo repository (13 status codes x body kinds through a fake RoundTripper whose bodies, like net/http's, cannot be read once the request context is done; no network). Documents reach the readers as several io.Reader types. HTTP bodies that start like a document and never end must not be read to their end (progress monitor in the body). Row types with fields the codec does not support (a named type built on time.Time, nested structs, pointers, slices) are read as well; the Tiingo repository is also obtained through asset.NewRepository and driven through Get / Assets / Append. Decided per document: no panic, the stream closes (runtime deadlock detector), delivered rows equal the records of the well-formed prefix computed by an independent reference, no goroutine left behind, response bodies closed, non-200 / missing files surface as errors.",
   design_ref="DESIGN.md §3 C19",
   note="Trusted: encoding/csv / encoding/json tokenisation (the reference uses the same standard-library tokenisers but its own field parsing). Closing the response body stands for 'no goroutine left behind' of the real HTTP transport. Unreadable-by-permission files cannot be produced as root.",
   technique="fault enumeration (all truncation offsets + corruption grammar) with crash/deadlock attribution, well-formed-prefix reference and goroutine census",
@@ -134,7 +134,7 @@ CHECKS = {
  ),
  "C17": dict(
   category="exploration",
-  text="Ring and Bst are driven through thousands of random operation histories over all seven numeric element types with values at the extremes of each type, in lock-step with a bounded-FIFO model and a multiset model; every return value is compared and the live tree is walked by reflection (sorted in-order, size and multiplicities equal to the model). All Bst histories up to length 5/6 over a 3-letter alphabet are enumerated exhaustively. The tree's sliding-window clients trend.MovingMax / MovingMin are run over the same pools plus the infinities for every element type and compared with the extreme of each window's multiset. This is bounded exploration: it shows the models agree on the histories run, not on all histories.",
+  text="Ring and Bst are driven through thousands of random operation histories over all seven numeric element types with values at the extremes of each type, in lock-step with a bounded-FIFO model and a multiset model; every return value is compared and the live tree is walked by reflection (sorted in-order, size and multiplicities equal to the model). All Bst histories up to length 5/6 over a 3-letter alphabet are enumerated exhaustively. The tree's sliding-window clients trend.MovingMax / MovingMin are run over the same pools plus the infinities for every element type and compared with the extreme of each window's multiset. Eight trees are also run at the same time, one goroutine each, each against its own model (independent objects). This is bounded exploration: it shows the models agree on the histories run, not on all histories.",
   design_ref="DESIGN.md §3 C17",
   note="Trusted: the Go runtime and reflect; the FIFO/multiset models in harness/internal/props/c17.go. Ring.Put's return value on a non-full ring is deliberately unchecked (the property only speaks of the displaced element).",
   technique="lock-step model-based runtime monitoring of operation histories + reflective structural invariant walk",
